@@ -597,25 +597,78 @@ def _subject_parts(a):
     return None, None
 
 
-def _has_notbol(e, f, loop):
+def matcher_flags(prog):
+    """Values of the matcher flags as the code uses them: NOTBOL (tested with the line-start
+    anchor in rstr_find), PREV (tested next to `r > s` before the look-behind), and the
+    RE_ -> REG_ mapping of rset_find.  Missing ones are None."""
+    out = {"NOTBOL": None, "PREV": None, "map": {}}
+    f = prog.func("rstr_find", file="rstr.c")
+    for n in f.walk():
+        if n["k"] == "bin" and n["op"] == "&&":
+            l, r = strip_casts(n["l"]), strip_casts(n["r"])
+            if l["k"] == "member" and l["field"] == "lbeg" and r["k"] == "bin" and r["op"] == "&" \
+                    and cval(r["r"]) is not None:
+                out["NOTBOL"] = cval(r["r"])
+        if n["k"] == "bin" and n["op"] == "||":
+            l, r = strip_casts(n["l"]), strip_casts(n["r"])
+            if l["k"] == "bin" and l["op"] in (">", "!=") and r["k"] == "bin" and r["op"] == "&" and \
+                    cval(r["r"]) is not None and strip_casts(r["l"])["k"] == "ref":
+                out["PREV"] = cval(r["r"])
+    g = prog.func("rset_find", file="rset.c")
+    for st in g.walk():
+        if st["k"] == "if" and st["c"]["k"] == "bin" and st["c"]["op"] == "&" and cval(st["c"]["r"]) is not None:
+            for n, lv, op, rhs in stores(st["t"]):
+                if op == "|=" and cval(rhs) is not None:
+                    out["map"][cval(st["c"]["r"])] = cval(rhs)
+    return out
+
+
+
+def _has_notbol(e, f, loop, bit=2):
     e = strip_casts(e)
     if e is None:
         return False
     for x in walk(e):
         v = cval(x)
-        if v is not None and v & 2 and x["k"] != "sizeof":
+        if v is not None and v & bit and x["k"] != "sizeof":
             return True
     if e["k"] == "ref":
         for n, lv, op, rhs in stores(loop):
             if lv["k"] == "ref" and lv["name"] == e["name"] and rhs is not None:
-                if any((cval(x) or 0) & 2 for x in walk(rhs)):
+                if any((cval(x) or 0) & bit for x in walk(rhs)):
                     return True
         # initialiser outside the loop
         for n, lv, op, rhs in stores(f.body):
             if lv.get("name") == e["name"] and op == "init" and rhs is not None:
-                if any((cval(x) or 0) & 2 for x in walk(rhs)):
+                if any((cval(x) or 0) & bit for x in walk(rhs)):
                     return True
     return False
+
+
+def _advanced_calls(prog):
+    """matcher calls inside a loop that advances the subject pointer or its offset"""
+    out = []
+    for f in prog.funcs.values():
+        if f.file in ("rstr.c", "rset.c", "regex.c"):
+            continue
+        for c in f.calls(MATCHERS):
+            loop = enclosing(f, c["id"], ("while", "for", "do"))
+            if loop is None:
+                continue
+            base, off = _subject_parts(c["args"][1])
+            if base is None:
+                continue
+            adv = False
+            for s_, lv, op, rhs in stores(loop):
+                if lv["k"] != "ref":
+                    continue
+                if lv["name"] == base and op in ("+=", "post++", "pre++"):
+                    adv = True
+                if off and lv["name"] == off and op in ("+=", "=", "post++", "pre++"):
+                    adv = True
+            if adv:
+                out.append((f, c, loop))
+    return out
 
 
 def rule_M1(ctx):
@@ -666,23 +719,68 @@ def rule_M1(ctx):
 
 
 def rule_M2(ctx):
-    ctx.begin("M2", floor=1, what="matches judged against the whole line in lbuf_search")
+    """Matches are judged against the whole line: wherever a matcher is re-invoked on an
+    interior pointer of the line, the flags can tell it that s[-1] is the real preceding
+    character (so \\< and \\> look at it), both matchers honour that flag, and the one caller
+    that works on a copy of a run does not claim it."""
+    ctx.begin("M2", floor=1, what="matcher calls on an interior pointer of the line")
     prog = ctx.prog
+    fl = matcher_flags(prog)
+    calls = _advanced_calls(prog)
     f = prog.func("lbuf_search", file="mot.c")
-    for c in f.calls(MATCHERS):
-        base, off = _subject_parts(c["args"][1])
-        if off is None:
-            ctx.ok("lbuf_search", "matcher sees the whole line", loc=f.loc(c))
-            continue
-        # an interior pointer: neither matcher takes the line start, so \< cannot look behind
-        takes_start = len(c["args"]) > 5
-        if takes_start:
-            ctx.ok("lbuf_search", "matcher is given the line start", loc=f.loc(c))
-        else:
-            ctx.violation("lbuf_search", "word boundary sees the real preceding character",
+    if not any(g is f for g, c, lp in calls):
+        for c in f.calls(MATCHERS):
+            base, off = _subject_parts(c["args"][1])
+            if off is not None:
+                calls.append((f, c, f.body))
+    n = 0
+    for g, c, loop in calls:
+        n += 1
+        if fl["PREV"] is None:
+            ctx.violation(g.name, "word boundary sees the real preceding character",
                           "%s is called on the interior pointer %s; neither matcher receives the "
                           "line start, so `\\<` at the resume position is judged as if the line "
-                          "began there" % (c["fn"], key(c["args"][1])), f.loc(c))
+                          "began there" % (c["fn"], key(c["args"][1])), g.loc(c))
+        elif _has_notbol(c["args"][4], g, loop, bit=fl["PREV"]):
+            ctx.ok(g.name, "%s on the interior pointer %s can tell the matcher that s[-1] is the "
+                   "preceding character (flag %d)" % (c["fn"], key(c["args"][1]), fl["PREV"]), loc=g.loc(c))
+        else:
+            ctx.violation(g.name, "word boundary sees the real preceding character",
+                          "%s is called on the interior pointer %s with flags %s, which never carry the "
+                          "left-context flag %d: `\\<` at the resume position is judged as if the line "
+                          "began there" % (c["fn"], key(c["args"][1]), key(c["args"][4])[:40], fl["PREV"]), g.loc(c))
+    if fl["PREV"] is not None:
+        # the engine gets the flag too and looks behind under it
+        reg = fl["map"].get(fl["PREV"])
+        am = prog.func("ratom_match", file="regex.c")
+        seen = False
+        for h in prog.funcs.values():
+            if h.file != "regex.c":
+                continue
+            for x in h.walk():
+                if x["k"] == "bin" and x["op"] == "&" and cval(x["r"]) == reg and reg is not None and \
+                        strip_casts(x["l"])["k"] == "member" and strip_casts(x["l"])["field"] == "flg":
+                    seen = True
+        if reg is None:
+            ctx.violation("rset_find", "left-context flag reaches the regex engine",
+                          "flag %d is honoured by rstr_find but not passed on to regexec: the two "
+                          "matchers disagree at a resumed position" % fl["PREV"])
+        elif not seen:
+            ctx.violation("ratom_match", "left-context flag reaches the regex engine",
+                          "regexec is given flag %#x but nothing in regex.c tests it" % reg)
+        else:
+            ctx.ok("ratom_match", "the engine tests the left-context flag %#x" % reg)
+        # a copy of a run has nothing before it
+        dm = prog.func("dir_match", file="dir.c")
+        for c in dm.calls(MATCHERS):
+            if _has_notbol(c["args"][4], dm, dm.body, bit=fl["PREV"]):
+                ctx.violation("dir_match", "left-context flag only with a real predecessor",
+                              "the subject is a copy of the run, yet the flags %s claim that s[-1] is "
+                              "readable" % key(c["args"][4])[:40], dm.loc(c))
+            else:
+                ctx.ok("dir_match", "no left-context claim on the copied run", loc=dm.loc(c))
+    if not n:
+        raise AnalysisBroken("no matcher call on an interior pointer found")
 
 
 # ----------------------------------------------------------------------------------------
@@ -958,6 +1056,66 @@ def rule_L5(ctx):
                     got = grps.get(0, -1) if (ret is not None and ret >= 0) else -1
                     if got != want and bad is None:
                         bad = (lit, line, wbeg, wend, got, want)
+    # resumed positions: with the left-context flag, the fast path and the engine started at an
+    # interior offset k must both answer what the engine answers for the whole line
+    fl = matcher_flags(prog)
+    n_prev = 0
+    prev_bad = None
+    if fl["PREV"] is not None and fl["map"].get(fl["PREV"]) is not None:
+        REGP = fl["map"][fl["PREV"]]
+        FAST = fl["PREV"] | (fl["NOTBOL"] or 0)
+
+        def engine_at(kind, line, o, p, flg):
+            sp = Ptr(line)
+            rs = {"s": Ptr(line, p, sp.log), "o": Ptr(line, o, sp.log), "flg": flg, "pc": 0, "dep": 0}
+            try:
+                return Interp(prog).call(am, [{"ra": kinds[kind], "s": None}, rs]) == 0
+            except (Unsupported, OverRead) as e:
+                raise AnalysisBroken("ratom_match not evaluable: %s" % e)
+        for L in range(1, 4):
+            for combo in itertools.product(alpha, repeat=L):
+                line = tuple(combo) + (0x0a, 0)
+                slen = len(line) - 1
+                for k in range(1, L + 1):
+                    for lit in lits[:3]:
+                        for wbeg, wend in ((1, 0), (0, 1), (1, 1)):
+                            want = -1            # whole-line semantics, first offset >= k
+                            mid = -1             # the engine started at k with the flag
+                            for p in range(k, slen - len(lit)):
+                                if line[p:p + len(lit)] != lit:
+                                    continue
+                                whole = (not wbeg or engine_at("RA_WBEG", line, 0, p, 0)) and \
+                                    (not wend or engine_at("RA_WEND", line, 0, p + len(lit), 0))
+                                part = (not wbeg or engine_at("RA_WBEG", line, k, p, REGP)) and \
+                                    (not wend or engine_at("RA_WEND", line, k, p + len(lit), REGP))
+                                if whole and want < 0:
+                                    want = p - k
+                                if part and mid < 0:
+                                    mid = p - k
+                            rs = {fld["name"]: 0 for fld in rec["fields"]}
+                            rs["rs"] = None
+                            rs["str"] = Ptr(lit + (0,))
+                            rs["wbeg"], rs["wend"] = wbeg, wend
+                            grps = {}
+                            try:
+                                ret = Interp(prog).call(f, [rs, Ptr(line, k), 1, grps, FAST])
+                            except (Unsupported, OverRead) as e:
+                                raise AnalysisBroken("rstr_find not evaluable at an interior offset: %s" % e)
+                            n_prev += 1
+                            got = grps.get(0, -1) if (ret is not None and ret >= 0) else -1
+                            if (got != want or mid != want) and prev_bad is None:
+                                prev_bad = (lit, line, k, wbeg, wend, got, mid, want)
+        if prev_bad:
+            lit, line, k, wbeg, wend, got, mid, want = prev_bad
+            sh = lambda b: "".join(chr(x) if 32 <= x < 127 else "\\x%02x" % x for x in b)
+            ctx.violation("rstr_find", "resumed search sees the real preceding character",
+                          "pattern %s%s%s resumed at offset %d of the line \"%s\": judged against the whole "
+                          "line the first match is at %s, the literal matcher says %s, the engine says %s" % (
+                              "\\<" if wbeg else "", sh(lit), "\\>" if wend else "", k, sh(line[:-2]),
+                              want, got, mid), f.loc(f.body))
+        else:
+            ctx.ok("rstr_find", "resumed at an interior offset with the left-context flag, both matchers "
+                   "agree with the whole-line verdict on %d (literal, anchors, line, offset) cases" % n_prev)
     # ignore-case: the fast path's byte comparison folds exactly what the engine folds
     icase_bit = None
     for n in am.walk():
